@@ -13,10 +13,8 @@ pub mod stream_syntax;
 
 // Cached main regexes - compiled once at startup
 static RULE_REGEX: OnceLock<Pattern> = OnceLock::new();
-static RULE_SPLIT_REGEX: OnceLock<Pattern> = OnceLock::new();
 static DEFMODULE_REGEX: OnceLock<Pattern> = OnceLock::new();
 static DEFMODULE_SPLIT_REGEX: OnceLock<Pattern> = OnceLock::new();
-static WHEN_THEN_REGEX: OnceLock<Pattern> = OnceLock::new();
 static SALIENCE_REGEX: OnceLock<Pattern> = OnceLock::new();
 static TEST_CONDITION_REGEX: OnceLock<Pattern> = OnceLock::new();
 static TYPED_TEST_CONDITION_REGEX: OnceLock<Pattern> = OnceLock::new();
@@ -39,13 +37,6 @@ fn rule_regex() -> &'static Pattern {
     })
 }
 
-fn rule_split_regex() -> &'static Pattern {
-    RULE_SPLIT_REGEX.get_or_init(|| {
-        Pattern::new(r#"(?s)rule\s+(?:"[^"]+"|[a-zA-Z_]\w*).*?\}"#)
-            .expect("Invalid rule split regex pattern")
-    })
-}
-
 fn defmodule_regex() -> &'static Pattern {
     DEFMODULE_REGEX.get_or_init(|| {
         Pattern::new(r#"defmodule\s+([A-Z_]\w*)\s*\{([^}]*)\}"#)
@@ -57,12 +48,6 @@ fn defmodule_split_regex() -> &'static Pattern {
     DEFMODULE_SPLIT_REGEX.get_or_init(|| {
         Pattern::new(r#"(?s)defmodule\s+[A-Z_]\w*\s*\{[^}]*\}"#)
             .expect("Invalid defmodule split regex pattern")
-    })
-}
-
-fn when_then_regex() -> &'static Pattern {
-    WHEN_THEN_REGEX.get_or_init(|| {
-        Pattern::new(r"when\s+(.+?)\s+then\s+(.+)").expect("Invalid when-then regex pattern")
     })
 }
 
@@ -151,6 +136,88 @@ fn simple_condition_regex() -> &'static Pattern {
     SIMPLE_CONDITION_REGEX.get_or_init(|| {
         Pattern::new(r#"(\w+)\s*(>=|<=|==|!=|>|<)\s*(.+)"#).expect("Invalid simple condition regex")
     })
+}
+
+/// Blank out comments (`// …` to end of line, `/* … */`) that are outside string literals.
+/// Every comment byte becomes a space (newlines are kept), so byte offsets are unchanged.
+fn strip_comments(text: &str) -> String {
+    let mut out = String::with_capacity(text.len());
+    let mut chars = text.chars().peekable();
+    let mut quote: Option<char> = None;
+    while let Some(ch) = chars.next() {
+        match quote {
+            Some(q) => {
+                out.push(ch);
+                if ch == q {
+                    quote = None;
+                }
+            }
+            None if ch == '"' || ch == '\'' => {
+                quote = Some(ch);
+                out.push(ch);
+            }
+            None if ch == '/' && chars.peek() == Some(&'/') => {
+                out.push(' ');
+                while let Some(&next) = chars.peek() {
+                    if next == '\n' {
+                        break;
+                    }
+                    chars.next();
+                    for _ in 0..next.len_utf8() {
+                        out.push(' ');
+                    }
+                }
+            }
+            None if ch == '/' && chars.peek() == Some(&'*') => {
+                chars.next();
+                out.push_str("  ");
+                let mut prev = ' ';
+                for next in chars.by_ref() {
+                    if next == '\n' {
+                        out.push('\n');
+                    } else {
+                        for _ in 0..next.len_utf8() {
+                            out.push(' ');
+                        }
+                    }
+                    if prev == '*' && next == '/' {
+                        break;
+                    }
+                    prev = next;
+                }
+            }
+            None => out.push(ch),
+        }
+    }
+    out
+}
+
+/// Copy of `text` in which the *content* of every string literal is replaced by `_` (one per
+/// byte, so offsets are unchanged). Structural characters are searched in the masked copy and
+/// the original is sliced at the same offsets: string literals are opaque to the parser.
+fn mask_strings(text: &str) -> String {
+    let mut out = String::with_capacity(text.len());
+    let mut quote: Option<char> = None;
+    for ch in text.chars() {
+        match quote {
+            Some(q) if ch == q => {
+                quote = None;
+                out.push(ch);
+            }
+            Some(_) => {
+                for _ in 0..ch.len_utf8() {
+                    out.push('_');
+                }
+            }
+            None => {
+                if ch == '"' || ch == '\'' {
+                    quote = Some(ch);
+                }
+                out.push(ch);
+            }
+        }
+    }
+    out
 }
 
 /// GRL (Grule Rule Language) Parser
@@ -394,7 +461,7 @@ impl GRLParser {
     }
 
     fn parse_single_rule(&mut self, grl_text: &str) -> Result<Rule> {
-        let cleaned = self.clean_text(grl_text);
+        let cleaned = self.clean_text(&strip_comments(grl_text));
 
         // Extract rule components using cached regex
         let captures =
@@ -425,15 +492,10 @@ impl GRLParser {
         let salience = self.extract_salience(attributes_section)?;
 
         // Parse when and then sections using cached regex
-        let when_then_captures =
-            when_then_regex()
-                .captures(rule_body)
-                .ok_or_else(|| RuleEngineError::ParseError {
-                    message: "Missing when or then clause".to_string(),
-                })?;
-
-        let when_clause = when_then_captures.get(1).unwrap().trim();
-        let then_clause = when_then_captures.get(2).unwrap().trim();
+        let (when_clause, then_clause) =
+            Self::split_when_then(rule_body).ok_or_else(|| RuleEngineError::ParseError {
+                message: "Missing when or then clause".to_string(),
+            })?;
 
         // Parse conditions and actions
         let conditions = self.parse_when_clause(when_clause)?;
@@ -469,15 +531,73 @@ impl GRLParser {
         Ok(rule)
     }
 
+    /// Split a rule body into its `when` and `then` parts at the first `then` keyword that is
+    /// outside a string literal (same shape as `when\s+(.+?)\s+then\s+(.+)`).
+    fn split_when_then(rule_body: &str) -> Option<(&str, &str)> {
+        let masked = mask_strings(rule_body);
+        let bytes = masked.as_bytes();
+        let is_space = |i: usize| bytes.get(i).is_some_and(|b| b.is_ascii_whitespace());
+        let when_pos = masked.find("when").filter(|&w| is_space(w + 4))?;
+        let mut pos = when_pos + 4;
+        while let Some(found) = masked[pos..].find("then") {
+            let then_pos = pos + found;
+            if then_pos > when_pos + 4 && is_space(then_pos - 1) && is_space(then_pos + 4) {
+                let when_clause = rule_body[when_pos + 4..then_pos].trim();
+                let then_clause = rule_body[then_pos + 4..].trim();
+                if !when_clause.is_empty() && !then_clause.is_empty() {
+                    return Some((when_clause, then_clause));
+                }
+                return None;
+            }
+            pos = then_pos + 4;
+        }
+        None
+    }
+
     fn parse_multiple_rules(&mut self, grl_text: &str) -> Result<Vec<Rule>> {
         // Split by rule boundaries - support both quoted and unquoted rule names
         // Use DOTALL flag to match newlines in rule body
         let mut rules = Vec::new();
 
-        for rule_match in rule_split_regex().find_iter(grl_text) {
-            let rule_text = rule_match.as_str();
-            let rule = self.parse_single_rule(rule_text)?;
+        // Comments and the content of string literals must not influence where a rule
+        // starts or ends: locate the blocks in a masked copy, slice the original.
+        let text = strip_comments(grl_text);
+        let masked = mask_strings(&text);
+        let bytes = masked.as_bytes();
+        let mut pos = 0;
+        while let Some(found) = masked[pos..].find("rule") {
+            let start = pos + found;
+            let after = start + 4;
+            let followed_by_space = bytes.get(after).is_some_and(|b| b.is_ascii_whitespace());
+            if !followed_by_space {
+                pos = after;
+                continue;
+            }
+            // Block = from the keyword to the brace that closes the first `{`
+            let Some(open) = masked[after..].find('{').map(|i| after + i) else {
+                break;
+            };
+            let mut depth = 0usize;
+            let mut end = None;
+            for (i, b) in bytes.iter().enumerate().skip(open) {
+                match b {
+                    b'{' => depth += 1,
+                    b'}' => {
+                        depth -= 1;
+                        if depth == 0 {
+                            end = Some(i + 1);
+                            break;
+                        }
+                    }
+                    _ => {}
+                }
+            }
+            let Some(end) = end else {
+                break;
+            };
+            let rule = self.parse_single_rule(&text[start..end])?;
             rules.push(rule);
+            pos = end;
         }
 
         Ok(rules)
@@ -710,9 +830,22 @@ impl GRLParser {
         let mut current_part = String::new();
         let mut paren_count = 0;
         let mut chars = clause.chars().peekable();
+        let mut quote: Option<char> = None;
 
         while let Some(ch) = chars.next() {
+            // String literals are opaque: no operator or parenthesis is recognised inside
+            if let Some(q) = quote {
+                if ch == q {
+                    quote = None;
+                }
+                current_part.push(ch);
+                continue;
+            }
             match ch {
+                '"' | '\'' => {
+                    quote = Some(ch);
+                    current_part.push(ch);
+                }
                 '(' => {
                     paren_count += 1;
                     current_part.push(ch);
@@ -1582,8 +1715,17 @@ impl GRLParser {
     }
 
     fn parse_then_clause(&self, then_clause: &str) -> Result<Vec<ActionType>> {
-        let statements: Vec<&str> = then_clause
-            .split(';')
+        // Statements end at a `;` that is outside a string literal
+        let masked = mask_strings(then_clause);
+        let mut statements: Vec<&str> = Vec::new();
+        let mut start = 0;
+        for (i, _) in masked.match_indices(';') {
+            statements.push(&then_clause[start..i]);
+            start = i + 1;
+        }
+        statements.push(&then_clause[start..]);
+        let statements: Vec<&str> = statements
+            .into_iter()
             .map(|s| s.trim())
             .filter(|s| !s.is_empty())
             .collect();
@@ -1621,7 +1763,9 @@ impl GRLParser {
         }
 
         // Check for compound assignment operators first (+=, -=, etc.)
-        if let Some(plus_eq_pos) = trimmed.find("+=") {
+        // (searched outside string literals)
+        let masked = mask_strings(trimmed);
+        if let Some(plus_eq_pos) = masked.find("+=") {
             // Append operator: Field += Value
             let field = trimmed[..plus_eq_pos].trim().to_string();
             let value_str = trimmed[plus_eq_pos + 2..].trim();
@@ -1631,7 +1775,7 @@ impl GRLParser {
         }
 
         // Assignment: Field = Value
-        if let Some(eq_pos) = trimmed.find('=') {
+        if let Some(eq_pos) = masked.find('=') {
             let field = trimmed[..eq_pos].trim().to_string();
             let value_str = trimmed[eq_pos + 1..].trim();
             let value = self.parse_value(value_str)?;
